@@ -102,7 +102,25 @@ INPUT_SETS = {
     "rho_eps": ["gammadown3", "Kdown3", "betaup3", "rho", "eps"],
     "vacuumlike": ["gammadown3", "Kdown3", "alpha", "betaup3", "dtbetaup3"],
     "minkowski": [],
+    # shift given by components WITHOUT betax (exposes the beta = 0 shortcut of s_to_st, see C01)
+    # exact solutions of Einstein's equations shipped with aurel (inputs = the module's data(t, x, y, z), t = 1.5)
+    "sol:Collins_Stewart": [], "sol:Non_diagonal": [], "sol:Rosquist_Jantzen": [],
+    "partial_shift": ["gxx", "gxy", "gxz", "gyy", "gyz", "gzz", "kxx", "kxy", "kxz", "kyy", "kyz", "kzz", "alpha",
+                      "betay", "betaz", "rho0", "press"],
 }
+
+
+SOL_INPUTS = {"Collins_Stewart": ["gammadown3", "rho", "press", "Kdown3"],
+              "Non_diagonal": ["gammadown3", "Kdown3", "Tdown4"],
+              "Rosquist_Jantzen": ["gammadown3", "Kdown3", "Tdown4"]}
+
+
+def input_keys(cfg):
+    """names of the frozen inputs of a configuration"""
+    if cfg["inputs"].startswith("sol:"):
+        return list(SOL_INPUTS[cfg["inputs"][4:]])
+    return [k for k in (e if isinstance(e, str) else e[0] for e in INPUT_SETS[cfg["inputs"]])
+            if k not in cfg.get("drop", ())]
 
 
 def description_keys():
@@ -266,7 +284,7 @@ def make_traced_class():
                 if ok:
                     sol = frozenset().union(*[c[1] for c in cp]) if cp else frozenset()
                     if key in SOL_KEYS:
-                        sol = sol | {(key, tuple(kids))}
+                        sol = sol | {(key, kids[0] if kids else None)}   # first request identifies the alternative
                     pv = (hash((key, tuple(c[0] for c in cp))), sol)
                     tr.prov[key] = pv
                     if tr.childprov:
@@ -335,7 +353,7 @@ def gen_config(rng, tier):
            "drop": []}
     # drop a few inputs (partial input sets, e.g. betay without betax)
     keys = [e if isinstance(e, str) else e[0] for e in INPUT_SETS[name]]
-    if keys and rng.random() < 0.3:
+    if keys and name != "partial_shift" and rng.random() < 0.3:
         cfg["drop"] = rng.sample(keys, rng.randrange(1, min(4, len(keys)) + 1))
     return cfg
 
@@ -376,10 +394,22 @@ def build(cfg):
               vacuum=cfg["vacuum"], Lambda=cfg["Lambda"], tetrad=cfg["tetrad"], lmax=2)
     rel = Traced(fd, **kw)
     rel.h_header()
-    for e in INPUT_SETS[cfg["inputs"]]:
-        k, f = (e, e) if isinstance(e, str) else e
-        if k not in cfg["drop"]:
-            rel.h_assign(k, fields[f].copy())
+    if cfg["inputs"].startswith("sol:"):
+        import importlib
+        sol = importlib.import_module("aurel.solutions." + cfg["inputs"][4:])
+        d = sol.data(1.5, fd.x, fd.y, fd.z)
+        if sorted(d) != sorted(SOL_INPUTS[cfg["inputs"][4:]]):
+            raise RuntimeError("solution %s provides %s" % (cfg["inputs"], sorted(d)))
+        for k, v in d.items():
+            v = np.array(v, dtype=float)
+            if v.shape == ():           # homogeneous quantity given as a number: a field on the grid
+                v = np.full(rel.data_shape, float(v))
+            rel.h_assign(k, v)
+    else:
+        for e in INPUT_SETS[cfg["inputs"]]:
+            k, f = (e, e) if isinstance(e, str) else e
+            if k not in cfg["drop"]:
+                rel.h_assign(k, fields[f].copy())
     rel.h_freeze()
     return rel, fields
 
